@@ -426,6 +426,11 @@ class DNSIncoming:
                 raise IncomingDecodeError(
                     f"DNS compression pointer at {off} was seen again from {self.source}"
                 )
+            if len(seen_pointers) >= MAX_DNS_LABELS:
+                raise IncomingDecodeError(
+                    f"Maximum dns compression pointers reached while processing pointer at {off} "
+                    f"from {self.source}"
+                )
             linked_labels = self._name_cache.get(link_py_int)
             if not linked_labels:
                 linked_labels = []
